@@ -71,9 +71,27 @@ def to_mapping_kind(x, kind, depth=0):
     return x
 
 
+def respell_hashes(x):
+    """Hash algorithm names in spellings the library accepts and normalises (md5, sha256, sha-1 ...): normalisation must
+    happen in the library's own copy, never in the caller's dictionary."""
+    if isinstance(x, dict):
+        out = {}
+        for k, v in x.items():
+            if k in ("hashes", "file_header_hashes") and isinstance(v, dict):
+                out[k] = {(hk.lower() if i % 2 == 0 else hk.replace("-", "").lower()): hv for i, (hk, hv) in enumerate(v.items())}
+            else:
+                out[k] = respell_hashes(v)
+        return out
+    if isinstance(x, list):
+        return [respell_hashes(v) for v in x]
+    return x
+
+
 class Machine(object):
     def __init__(self, case):
         self.docs = copy.deepcopy(case["docs"])          # caller-owned argument values
+        if case.get("hash_spelling") == "non-canonical":
+            self.docs = [respell_hashes(d) for d in self.docs]
         mk = case.get("mapping_kind", "dict")
         if mk != "dict":
             self.docs = [to_mapping_kind(d, mk) for d in self.docs]
@@ -342,7 +360,8 @@ def case_strategy(draw):
     ops = [{"op": "parse", "a": 0, "flag": True}]
     for _ in range(draw(st.integers(3, 8))):
         ops.append({"op": draw(st.sampled_from(OPS)), "a": draw(st.integers(0, 5)), "b": draw(st.integers(0, 11)), "c": draw(st.integers(0, 3)), "flag": draw(st.booleans())})
-    return {"docs": docs, "vers": vers, "ops": ops, "mapping_kind": draw(st.sampled_from(["dict", "dict", "ordered", "ordered-deep", "default-deep"]))}
+    return {"docs": docs, "vers": vers, "ops": ops, "mapping_kind": draw(st.sampled_from(["dict", "dict", "ordered", "ordered-deep", "default-deep"])),
+            "hash_spelling": draw(st.sampled_from(["canonical", "canonical", "non-canonical"]))}
 
 
 def run(ctx):
@@ -358,7 +377,7 @@ def run(ctx):
     def body(case):
         fails = check_case(case)
         depth2 = any(any(isinstance(v, (list, dict)) for v in d.values()) for d in case["docs"])
-        cl = ["op:" + o["op"] for o in case["ops"]] + ["docs:%d" % len(case["docs"]), "containers:" + case.get("mapping_kind", "dict")]
+        cl = ["op:" + o["op"] for o in case["ops"]] + ["docs:%d" % len(case["docs"]), "containers:" + case.get("mapping_kind", "dict"), "hashes:" + case.get("hash_spelling", "canonical")]
         ctx.note(case, depth2 and len(case["ops"]) >= 3, cl)
         ctx.handle(case, fails)
 
